@@ -5,6 +5,7 @@
 -/
 import PicoSVG.Model.Paint
 import PicoSVG.Proofs.PruneP
+import PicoSVG.Model.Shape
 
 set_option linter.unusedSectionVars false
 namespace PicoSVG.C18
@@ -114,5 +115,15 @@ theorem moveOnly_draws_nothing (cmds : List (Cmd γ)) (segs : List (Seg γ))
     (hm : cmds.all (fun c => Path.toUpper c.1 == 'M') = true) (h : interp cmds = some segs) :
     ∀ sg ∈ segs, ∃ p, sg = Seg.move p := PruneP.interpFrom_moveOnly cmds initState segs hm h
 end
+
+/-- C18-4b (which `display` counts): `might_paint()` of a shape record answers no whenever the record *after*
+    `apply_style_attribute` has display none — whatever the presentation attribute said before the style declarations were
+    laid over it, and without asking the engine for an area.  (The converse side — an attribute `display="none"` overridden by
+    `style="display:inline"` leaves the decision to the paint ladder — is exercised by the correspondence on generated shapes
+    whose attribute contradicts their style; the model evaluates `applyStyle` there, it is not kernel-reducible.) -/
+theorem mightPaint_decides_on_styled_display (r s : ShapeRec) (area : Option (Except PyErr Float))
+    (h : r.applyStyle = .ok s) (hd : s.getS "display" = "none") : r.mightPaint area = .ok false := by
+  unfold ShapeRec.mightPaint
+  simp [h, bind, Except.bind, hd, pure, Except.pure]
 
 end PicoSVG.C18
